@@ -516,10 +516,20 @@ func (c *Ctx) Finish() int {
 	for _, id := range c.ruleSeq {
 		rules = append(rules, map[string]any{"id": id, "rule": c.Rules[id], "obligations": perRule[id]})
 	}
+	expl := explanations[c.Prop]
+	var later []string
+	for _, id := range c.ruleSeq {
+		if !strings.Contains(expl, id) {
+			later = append(later, id)
+		}
+	}
+	if len(later) > 0 {
+		expl += " Also decides the rules " + strings.Join(later, ", ") + " (added while testing the checker against independently seeded changes); their statements are listed under coverage.rules."
+	}
 	ev := evidence{
 		PropertyID: c.Prop, Tier: c.Tier, Seed: seedEnv(), Level: "other",
 		Coverage: map[string]any{
-			"explanation":         explanations[c.Prop],
+			"explanation":         expl,
 			"obligations":         len(c.Obls),
 			"discharged":          nOK,
 			"known_findings":      nKnown,
